@@ -702,6 +702,11 @@ func (e *Exec) checkPost(st *State, n ast.Node) {
 		}
 	}
 	for _, en := range e.contract.Ensures {
+		if hasTag(en.Tags, "ASSUMED") {
+			// a clause the body is not checked against: callers rely on it, the evidence lists it
+			e.assumptions["ASSUMED clause of "+e.funcName()+": @"+en.Label] = true
+			continue
+		}
 		env.what = e.funcName() + " ensures @" + en.Label
 		g := env.evalBool(en.Expr)
 		e.oblige(st, "post", en.Label, g, n, en.Tags)
